@@ -124,7 +124,7 @@ def table_tok(t, n):
             if v is None: parts.append('N')
             else:
                 a = np.atleast_1d(np.asarray(v, dtype=float))
-                parts.append('[%d %s]' % (len(a), fl(a)))
+                parts.append('[ %d %s ]' % (len(a), fl(a)))
     return 'table ' + ' '.join(parts)
 
 def scales(tokline):
@@ -137,10 +137,10 @@ def group_atols(line, rtol):
     i = 0
     from .driver import is_hex
     while i < len(toks):
-        if is_hex(toks[i].strip('[]')):
+        if is_hex(toks[i]):
             j = i; m = 0.0
-            while j < len(toks) and is_hex(toks[j].strip('[]')):
-                v = h2f(toks[j].strip('[]'))
+            while j < len(toks) and is_hex(toks[j]):
+                v = h2f(toks[j])
                 if math.isfinite(v): m = max(m, abs(v))
                 j += 1
             for q in range(i, j): at[q] = rtol * m
